@@ -178,9 +178,17 @@ def strip_wrappers(w: World, t, o):
 
 def passthrough_td(w: World, t):
     """A TypedDict all of whose values need no conversion: its unstructure hook is the identity (documented)."""
+    while t[0] in ("newtype", "annot"):
+        t = t[2] if t[0] == "newtype" else t[1]
     if t[0] in ("class",) and w.specs[t[1]].kind == "td":
-        return all(f.type is not None and (f.type[0] in ("prim", "lit", "any") or passthrough_td(w, f.type)) for f in w.specs[t[1]].fields)
+        return all(f.type is not None and (_identity_leaf(f.type) or passthrough_td(w, f.type)) for f in w.specs[t[1]].fields)
     return False
+
+
+def _identity_leaf(t):
+    while t[0] in ("newtype", "annot"):
+        t = t[2] if t[0] == "newtype" else t[1]
+    return t[0] in ("prim", "lit", "any")
 
 
 def td_positions(w: World, t, x, acc, depth=0):
@@ -202,7 +210,7 @@ def td_positions(w: World, t, x, acc, depth=0):
                 if f.type is not None and hasattr(x, f.name):
                     td_positions(w, f.type, getattr(x, f.name), acc, depth + 1)
                 elif f.type is None and hasattr(x, f.name):
-                    td_any(w, getattr(x, f.name), acc)
+                    td_any(w, getattr(x, f.name), acc, depth + 1)
     elif k in ("list", "tuphom", "set", "fset"):
         for e in x:
             td_positions(w, t[1], e, acc, depth + 1)
@@ -218,12 +226,26 @@ def td_positions(w: World, t, x, acc, depth=0):
     elif k == "newtype":
         td_positions(w, t[2], x, acc, depth)
     elif k == "any":
-        td_any(w, x, acc)
+        td_any(w, x, acc, depth + 1)
     return acc
 
 
-def td_any(w, x, acc):
-    """Any-typed position while unstructuring: dispatch by runtime class; plain dicts are copied, so nothing is allowed."""
+def td_any(w, x, acc, depth=0):
+    """Any-typed / untyped position while unstructuring: dispatch is by runtime class, so instances of world
+    classes are looked at through their own annotations; plain dicts / lists are copied."""
+    if depth > 30:
+        return acc
+    tx = type(x)
+    for cid, cl in enumerate(w.pycls):
+        if tx is cl and w.specs[cid].kind != "td":
+            return td_positions(w, ("class", cid), x, acc, depth + 1)
+    if tx in (list, tuple, set, frozenset):
+        for e in x:
+            td_any(w, e, acc, depth + 1)
+    elif tx is dict:
+        for k, e in x.items():
+            td_any(w, k, acc, depth + 1)
+            td_any(w, e, acc, depth + 1)
     return acc
 
 
